@@ -29,7 +29,7 @@ ASSUMPTIONS = STRUCT_ASSUMPTIONS
 
 
 def budget(tier):
-    return dict(examples=3000 if tier == 'quick' else 150000)
+    return dict(examples=3000 if tier == 'quick' else 100000)
 
 
 @st.composite
